@@ -290,7 +290,7 @@ def c04_shards(tier, seed):
                         continue
                     if item == 'enum' and tyform == 3:
                         continue
-                    out.append({'family': 'c04', 'item': item, 'k': k, 'order': order, 'tyform': tyform, 'errform': (tyform + k) % len(C04_ERRS)})
+                    out.append({'family': 'c04', 'item': item, 'k': k, 'order': order, 'tyform': tyform, 'errform': (tyform + k) % len(C04_ERRS), 'rot': seed + tyform + order})
     return out
 
 
@@ -303,7 +303,9 @@ def make_c04(sh):
         others = [('Y', None), ('Z', None)]
         tis = [TraitInstr(Ch('tn0', TRAIT_NAMES), ty, err=Ch('te0', [None, err]), tag='t0', ty_generics=TyGenerics(gen) if gen else None)]
         for j in range(1, k):
-            tis.append(TraitInstr(Ch('tn%d' % j, TRAIT_NAMES), others[j - 1][0], err=Ch('te%d' % j, [None, err]), tag='t%d' % j))
+            # three symbolic names would be 24^3 name triples per shard (> 1 h): with k = 3 the 2nd / 3rd instruction range over a rotated third of the names
+            dom = TRAIT_NAMES if k < 3 else [n for i, n in enumerate(TRAIT_NAMES) if (i + j + sh.get('rot', 0)) % 3 == 0]
+            tis.append(TraitInstr(Ch('tn%d' % j, dom), others[j - 1][0], err=Ch('te%d' % j, [None, err]), tag='t%d' % j))
         if order:
             tis = tis[::-1]
         tys = tuple(sorted({t.ty if isinstance(t.ty, str) else '(tuple)' for t in tis}))
